@@ -54,7 +54,8 @@ Final(t, lay) ==
                          chords |-> GroupChords(t, lay)]
     [] t.f = "multi" -> [t |-> "multi", acs |-> FinalMembers(t, lay)]    \* (a multi inside a multi is flattened)
     [] t.f = "taphold" -> [t |-> "holdtap", timeout |-> HT, thi |-> HT, cfg |-> "press",
-                           tap |-> Final(t.a, lay), hold |-> Final(t.b, lay)]
+                           tap |-> Final(t.a, lay), hold |-> Final(t.b, lay),
+                           toa |-> Final(t.b, lay)]     \* the timeout action: the hold action unless given explicitly
     [] t.f = "tapdance" -> [t |-> "tapdance", timeout |-> TD, eager |-> FALSE,
                             acs |-> <<Final(t.a, lay), Final(t.b, lay)>>]
     [] t.f = "fork" -> [t |-> "fork", left |-> Final(t.a, lay), right |-> Final(t.b, lay), trig |-> t.trig]
@@ -127,14 +128,6 @@ HasChord(t) ==
     [] t.f = "chord" -> TRUE
     [] t.f \in {"multi", "taphold", "tapdance", "fork"} -> HasChord(t.a) \/ HasChord(t.b)
     [] t.f = "switch" -> \E i \in DOMAIN t.cases : HasChord(t.cases[i].a)
-\* a chord as (part of) the hold action of a tap-hold: its behaviour at the timeout is outside C10 (the
-\* parser's `timeout_action` copy of the hold action is not touched by the placeholder resolution)
-RECURSIVE HoldChord(_)
-HoldChord(t) ==
-  CASE t.f \in {"key", "chord"} -> FALSE
-    [] t.f = "taphold" -> HasChord(t.b) \/ HoldChord(t.a)
-    [] t.f \in {"multi", "tapdance", "fork"} -> HoldChord(t.a) \/ HoldChord(t.b)
-    [] t.f = "switch" -> \E i \in DOMAIN t.cases : HoldChord(t.cases[i].a)
 \* A switch that is followed by further actions of the same key press -- inside the action of a
 \* `fallthrough` case, or as an earlier member of a multi: the inner switch's actions are performed after
 \* those further actions (they are queued behind them).  The statement fixes no order between the two, so
